@@ -372,57 +372,6 @@ func (f *failer) fail(kind, class, detail, input string) {
 	}
 }
 
-// blockTypeTwiceIsTheCause: some part lists a block type twice with different label counts, the
-// body involves dynblock.Expand, and with every such type reduced to its LAST entry the one-step
-// and the split histories agree on attributes, blocks and diagnostics.
-func blockTypeTwiceIsTheCause(cs *CaseSpec, pf []parsedFile, split int) bool {
-	if !anyExpand(cs) {
-		return false
-	}
-	found := false
-	parts := make([]Schema, len(cs.Parts))
-	for i, p := range cs.Parts {
-		last := map[string]int{}
-		for j, b := range p.Blocks {
-			if k, ok := last[b.Type]; ok && p.Blocks[k].Labels != b.Labels {
-				found = true
-			}
-			last[b.Type] = j
-		}
-		q := Schema{Attrs: p.Attrs}
-		for j, b := range p.Blocks {
-			if last[b.Type] == j {
-				q.Blocks = append(q.Blocks, b)
-			}
-		}
-		parts[i] = q
-	}
-	if !found {
-		return false
-	}
-	one, p1 := runHistory(buildBody(cs, pf), parts, 0, nil)
-	two, p2 := runHistory(buildBody(cs, pf), parts, split, nil)
-	if p1 != nil || p2 != nil {
-		return false
-	}
-	ua, ub, ud := accumulate(one.Steps)
-	ha, hb, hd := accumulate(two.Steps)
-	if !sameStrings(ua, ha) || len(ud) != len(hd) || len(ub) != len(hb) {
-		return false
-	}
-	for d := range ud {
-		if !hd[d] {
-			return false
-		}
-	}
-	for t := range ub {
-		if !sameStrings(ub[t], hb[t]) {
-			return false
-		}
-	}
-	return true
-}
-
 // ---- the direct oracle ------------------------------------------------------------
 
 func expandedFile(cs *CaseSpec, fi int) bool {
@@ -559,15 +508,10 @@ func oracle(cs *CaseSpec, pf []parsedFile, main histResult, f *failer, input str
 			if len(onlyU)+len(onlyH) > 0 {
 				sort.Strings(onlyU)
 				sort.Strings(onlyH)
+				// (a schema part naming one block type twice with different label counts used to make
+				// a stacked dynblock.Expand re-decode a dynamic block under another header in the
+				// later step — repaired by /repo 5052f97; the symptom is an ordinary violation)
 				kind := "two-step-differs"
-				if blockTypeTwiceIsTheCause(cs, pf, split) {
-					// exact cause: a schema part lists one block type twice with different label
-					// counts and a dynblock.Expand is stacked on another one: expandBlocks picks the
-					// FIRST entry for a dynamic block, hiddenBlocks (a map) keeps the LAST, so the
-					// inner expansion sees another header in the later step. Decided by re-running
-					// both histories with every such type reduced to its last entry.
-					kind = "two-step-differs-block-type-listed-twice"
-				}
 				f.fail(kind, "diagnostics", fmt.Sprintf("split after %d parts: only in one step %v, only in steps %v", split, onlyU, onlyH), input)
 			}
 		}
